@@ -46,8 +46,13 @@ class RoundingPen(FilterPen):
         )
 
     def qCurveTo(self, *points):
+        # the last point is None for a closed contour without on-curve points
+        # (TrueType special case, see AbstractPen.qCurveTo)
         self._outPen.qCurveTo(
-            *((self.roundFunc(x), self.roundFunc(y)) for x, y in points)
+            *(
+                pt if pt is None else (self.roundFunc(pt[0]), self.roundFunc(pt[1]))
+                for pt in points
+            )
         )
 
     def addComponent(self, glyphName, transformation):
